@@ -42,7 +42,7 @@ import json,sys,os,re
 dest,prop,k,pkg,base,clean,mut,suite,rc,tier,chk=sys.argv[1:]
 readme=open(os.path.join(dest,'README.md')).read() if os.path.exists(os.path.join(dest,'README.md')) else ''
 meta={"property":prop,"id":f"{prop}-{k}","base_commit":base,"demo_package_dir":pkg,
- "needs_to_manifest":"see README.md (written by the independent sub-agent that produced the change)",
+ "needs_to_manifest":json.load(open('/verif/tools/seed_notes.json')).get(f"{prop}-{k}","see README.md")+" (details in README.md, written by the independent sub-agent that produced the change)",
  "confirmed":{"existing_suite_with_change":"passes" if suite=="none" else suite,"demo_without_change":clean,"demo_with_change":mut},
  "ran":[f"git worktree of /repo at {base}; git apply patch.diff; go build ./...; go test -count=1 ./...; demo placed in {pkg}/ and run with and without the change",
         f"VERIF_REPO=<worktree> ./run {chk} {tier}"]}
